@@ -9,6 +9,7 @@ from harness.core import import_param
 from harness.drivers import _simple
 
 param = import_param()
+from fractions import Fraction
 import numbergen  # noqa: E402
 
 logging.getLogger("param").setLevel(logging.CRITICAL)
@@ -21,12 +22,29 @@ class P(param.Parameterized):
     c = param.Number(default=0, constant=True)
 
 
+class Counter:
+    """a plain callable that is not a function of time: the k-th production returns k"""
+    def __init__(self):
+        self.k = 0
+
+    def __call__(self):
+        self.k += 1
+        return float(self.k)
+
+
+BASE = 10 ** 6
+
+
 class System:
     def __init__(self, beh, opts):
         param.Dynamic.time_dependent = True
+        # how spec times are represented: small ints (cached objects), large ints created afresh at
+        # every jump (equal but not identical), or Fractions
+        self.enc = opts.get("enc", "small")
+        # (the one global Time object is kept: numbergen captured it at import)
         self.tf = param.Dynamic.time_fn
         self.tf._pushed_state = []
-        self.tf(0)
+        self.tf(self.T(0), time_type=Fraction if self.enc == "fraction" else int)
         gen = opts["gens"]        # slot -> identity
         inst = opts["insts"]      # slot -> instance number
         self.objs = {}
@@ -39,10 +57,27 @@ class System:
                 used[i] = 0
             pname = "ab"[used[i]]
             used[i] += 1
-            g = numbergen.UniformRandom(name=gen[s], seed=7, time_dependent=True)
+            g = Counter() if gen[s] == "K" else numbergen.UniformRandom(name=gen[s], seed=7, time_dependent=True)
             setattr(self.objs[i], pname, g)
             self.slot[int(s)] = (self.objs[i], pname, gen[s])
         self.cms = []
+
+    def T(self, t):
+        if self.enc == "small":
+            return t
+        if self.enc == "fraction":
+            return Fraction(t * 3 + 1, 3)
+        return int(str(BASE + t))          # a new int object every time
+
+    def D(self, d):
+        return Fraction(d) if self.enc == "fraction" else d
+
+    def unT(self, x):
+        if self.enc == "small":
+            return x
+        if self.enc == "fraction":
+            return (x * 3 - 1) / 3
+        return x - BASE
 
     def init(self, st):
         return None
@@ -50,12 +85,12 @@ class System:
     def do(self, a, st):
         n = a["name"]
         if n == "settime":
-            self.tf(a["t"])
+            self.tf(self.T(a["t"]))
         elif n == "advance":
             if a["d"] >= 0:
-                self.tf += a["d"]
+                self.tf += self.D(a["d"])
             else:
-                self.tf -= -a["d"]
+                self.tf -= self.D(-a["d"])
             param.Dynamic.time_fn = self.tf
         elif n == "enter":
             self.cms.append(self.tf.__enter__())
@@ -87,7 +122,7 @@ class System:
         return None
 
     def obs(self):
-        return {"time": self.tf()}
+        return {"time": self.unT(self.tf())}
 
     def check(self, st, ret, got):
         name = st["act"]["name"]
@@ -101,17 +136,22 @@ class System:
                 if ret is not None:
                     return ("value", "%s before any read returned %r, spec expects None" % (name, ret))
                 return None
-            key = (term[0], term[1])
+            if term[0] == "K":
+                if ret != float(term[1]):
+                    return ("same_time_same_value", "%s of the counter-backed parameter returned %r, spec expects the value of production number %d "
+                            "(a read at an unchanged time must return the cached value, a read at a new time produces exactly once)" % (name, ret, term[1]))
+                return None
+            key = (term[0], self.enc, term[1])
             if not isinstance(ret, float):
                 return ("value", "%s returned %r (not a number) for term %s" % (name, ret, key))
             if key in TABLE and TABLE[key] != ret:
                 return ("not_a_function_of_time", "%s of generator %s at time %s returned %r, but %r was returned for the same generator and time before"
-                        % (name, key[0], key[1], ret, TABLE[key]))
+                        % (name, key[0], key[2], ret, TABLE[key]))
             TABLE.setdefault(key, ret)
             # different times must not alias (inspect after a time change returns the *old* term's value)
-            for (g, t), v in TABLE.items():
-                if g == key[0] and t != key[1] and v == ret:
-                    return ("stale_value", "%s at time %s returned the value of time %s" % (name, key[1], t))
+            for (g, e, t), v in TABLE.items():
+                if g == key[0] and e == key[1] and t != key[2] and v == ret:
+                    return ("stale_value", "%s at time %s returned the value of time %s" % (name, key[2], t))
         return None
 
     def close(self):
@@ -121,6 +161,14 @@ class System:
 
 
 def replay(beh, opts):
+    if "enc" not in opts:
+        res = None
+        for enc in ("small", "fresh", "fraction"):
+            res = replay(beh, dict(opts, enc=enc))
+            if res["status"] != "ok":
+                res["msg"] = "[times as %s] %s" % (enc, res.get("msg"))
+                break
+        return res
     if opts.get("nontrivial") == "rejected":
         return _simple.run(System, beh, opts, nontrivial=lambda b: any(s["act"]["name"] == "reject" for s in b["steps"]))
     return _simple.run(System, beh, opts, nontrivial=lambda b: sum(1 for s in b["steps"] if s["act"]["name"] in ("read", "force")) >= 1)
